@@ -30,6 +30,9 @@ var Scenarios = map[string]Scenario{
 	// a three-document segment that is partially deleted while still in memory, then persisted directly
 	"rd-partial-ucf-nomem":    {Quiesce: true, Batches: partialBatches, Opts: harness.Opts{EagerMerge: true, Unsafe: true, NoMemMerge: true}, Acquires: 3, ClientsFirst: true, IDs: []string{"a", "b", "c", "d"}},
 	"rd-partial-ucf-nomem-f1": {Quiesce: true, Batches: partialBatches, Opts: harness.Opts{EagerMerge: true, MergeFloor1: true, Unsafe: true, NoMemMerge: true}, Acquires: 3, ClientsFirst: true, IDs: []string{"a", "b", "c", "d"}},
+	"rd-late":                 {Batches: lateDeleteBatches, Opts: harness.Opts{EagerMerge: true}, Acquires: 3, IDs: []string{"a", "b", "c", "e"}},
+	"rd-late-ucf-nomem":       {Quiesce: true, Batches: lateDeleteBatches, Opts: harness.Opts{EagerMerge: true, Unsafe: true, NoMemMerge: true}, Acquires: 3, ClientsFirst: true, IDs: []string{"a", "b", "c", "e"}},
+	"rd-nap-cf":               {Quiesce: true, Batches: mergeBatches[:4], Opts: harness.Opts{EagerMerge: true, Unsafe: true, NapMS: 5}, Acquires: 3, ClientsFirst: true},
 	"rd-keep2":                {Batches: threeBatches, Opts: harness.Opts{EagerMerge: true, Retain: 2}, Acquires: 2},
 	"rd-keep3":                {Batches: threeBatches, Opts: harness.Opts{EagerMerge: true, Retain: 3}, Acquires: 2},
 	// a client whose deletes/updates land on segments under merge; a fresh reader after every batch
